@@ -122,6 +122,22 @@ func (k call) args(withGas bool) []byte {
 	return bz
 }
 
+// branchCode stops when more than n gas is left at entry and otherwise loops until it runs out of gas:
+// the gas limit it needs is far above the gas it uses, as with `require(gasleft() > n)` in relayers.
+func branchCode(n uint64) []byte {
+	a := asm.New()
+	a.Op(asm.GAS).PushU(n).Op(0x10) // LT: n < gas
+	a.Op(0x61, 0, 0)               // PUSH2 <ok>, patched below
+	pos := len(a.B) - 2
+	a.Op(asm.JUMPI)
+	loop := len(a.B)
+	a.Op(asm.JUMPDEST, 0x61, byte(loop>>8), byte(loop), 0x56) // loop: JUMPDEST PUSH2 loop JUMP  (runs out of gas)
+	ok := len(a.B)
+	a.B[pos], a.B[pos+1] = byte(ok>>8), byte(ok)
+	a.Op(asm.JUMPDEST, asm.STOP)
+	return a.B
+}
+
 type driver struct {
 	w     *drivers.World
 	c     *chain.Chain
@@ -131,6 +147,7 @@ type driver struct {
 	stats map[string]int
 	env   common.Address
 	gdep  common.Address
+	gbr   common.Address
 	erc20 common.Address
 	ncall int
 	// txs of the last block, for tracing
@@ -195,8 +212,13 @@ func (d *driver) newCall(predictable bool) call {
 	si := r.Intn(4) // a0..a3 deliver; a5 is reserved for mempool trial executions
 	k.from, k.fromName = d.c.Accts[si], fmt.Sprintf("a%d", si)
 	k.gas = []uint64{60000, 100000, 200000, 300000, 400000}[r.Intn(5)]
-	kk := r.Intn(12)
+	kk := r.Intn(13)
 	switch {
+	case kk == 12: // gas-dependent branch: needs > 200000 gas at entry, uses ~21000
+		a := d.gbr
+		k.to, k.data = &a, []byte{0}
+		k.gas = []uint64{150000, 300000, 400000}[r.Intn(3)]
+		k.desc = trace.M{"to": "gbranch"}
 	case kk < 7: // menu contracts (straight-line programs over constants: predictable)
 		ci := r.Intn(8)
 		name := fmt.Sprintf("c%d", ci)
@@ -233,7 +255,7 @@ func (d *driver) newCall(predictable bool) call {
 		predictable = false
 	}
 	k.desc["from"], k.desc["gas"], k.desc["value"], k.desc["id"] = k.fromName, trace.U(k.gas), k.value, k.id
-	k.desc["predictable"] = predictable && kk < 11
+	k.desc["predictable"] = predictable && kk != 11
 	return k
 }
 
@@ -292,6 +314,7 @@ func one(out *trace.W, r *rand.Rand, tid string, blocks int, stats map[string]in
 	envA := common.HexToAddress("0x00000000000000000000000000000000e4e40001")
 	gdepA := common.HexToAddress("0x00000000000000000000000000000000e4e40002")
 	burnA := common.HexToAddress("0x00000000000000000000000000000000e4e40003")
+	gbrA := common.HexToAddress("0x00000000000000000000000000000000e4e40004")
 	w, _ := drivers.NewEthWorld(tbl, r, tid, func(o *chain.Opts) {
 		o.MaxGas = -1
 		o.MinGasPrice = "0"
@@ -300,10 +323,11 @@ func one(out *trace.W, r *rand.Rand, tid string, blocks int, stats map[string]in
 		o.Contracts = append(o.Contracts,
 			chain.GenContract{Addr: envA, Code: envCode()},
 			chain.GenContract{Addr: burnA, Code: []byte{asm.INVALID}},
+			chain.GenContract{Addr: gbrA, Code: branchCode(200000)},
 			chain.GenContract{Addr: gdepA, Code: asm.New().Call(asm.CALL, burnA, asm.CallOpts{}).SStore(7, 1).Bytes()})
 	})
 	c := w.C
-	d := &driver{w: w, c: c, r: r, out: out, tid: tid, stats: stats, env: envA, gdep: gdepA}
+	d := &driver{w: w, c: c, r: r, out: out, tid: tid, stats: stats, env: envA, gdep: gdepA, gbr: gbrA}
 	if a := c.App.CPCKeeper.GetErc20CustomPrecompiledContractAddressByMinDenom(c.Ctx(), chain.Denom); a != nil {
 		d.erc20 = *a
 	}
@@ -439,7 +463,8 @@ func (d *driver) request(pending *[]call) {
 			est = rsp.Gas
 			return fmt.Sprint(rsp.Gas), "ok"
 		})
-		if est > 0 && est < 2_000_000_000 && cl.desc["predictable"].(bool) && len(*pending) == 0 {
+		affordable := est > 0 && est < 2_000_000_000 && int64(est)*cl.price+cl.value < c.Bal(cl.from.Addr, chain.Denom).Int64()/2
+		if affordable && cl.desc["predictable"].(bool) && len(*pending) == 0 {
 			cl.gas = est
 			d.out.Emit(trace.M{"ev": "SimPredict", "id": cl.id, "h": c.Height, "gas": trace.U(est), "result": trace.M{"class": "any", "ret": "any", "gasUsed": int64(0), "logs": "any"}, "what": "estimate"})
 			*pending = append(*pending, cl)
